@@ -947,6 +947,9 @@ pub fn c09(out: &mut Vec<String>, rng: &mut Rng, tier: &str) {
     }
 }
 
+pub fn fenc_pub<F: FElem>(x: f64) -> String {
+    fenc::<F>(x)
+}
 pub fn obs_tokens_pub<F: FElem>(kind: &str, rng: &mut Rng, scale: f64) -> Vec<String> {
     obs_tokens::<F>(kind, rng, scale)
 }
